@@ -3,6 +3,7 @@ import collections
 import contextlib
 import html
 import io
+import os
 import math
 import re
 
@@ -349,7 +350,13 @@ def check_case(ctx, case, record=True):
                         return body()
                     except BaseException as e:
                         return "err", e
-                out = harness.execute(thunk, case["sched"], trace=False, modules=[spo])
+                # one in sixteen of these cases with opcode-level preemption inside the progress package: a rendering that is not
+                # done under the observer's lock can then be interleaved with notifications at any bytecode
+                import glob as _glob
+
+                pfiles = sorted(_glob.glob(os.path.join(os.path.dirname(spo.__file__), "*.py")))
+                traced = case["sched"].get("seed", 0) % 16 == 0
+                out = harness.execute(thunk, case["sched"], trace=traced, modules=[spo], files=pfiles)
                 if out.verdict:
                     ctx.violation(case, f"display update thread / observer deadlocked: {out.verdict} {out.verdict_info}")
                 if out.uncaught:
@@ -480,7 +487,7 @@ def run_shard(ctx):
     def test(case):
         runner.guarded(ctx, check_case, case)
 
-    runner.drive(ctx, test, ctx.n(16000, 120000))
+    runner.drive(ctx, test, ctx.n(12000, 120000))
 
 
 def replay(ctx, case):
